@@ -320,7 +320,7 @@ theorem C04_any_scheduler {pick : Picker} (hp : PickOk pick) {P : Problem} (hP :
   exact ⟨st, s', h, by omega⟩
 
 /-- the invariant does not mention the statistics -/
-theorem Inv_stats {P : Problem} {s : State} (hI : Inv P s) (x : Stats) : Inv P { s with stats := x } :=
+theorem Inv_withStats {P : Problem} {s : State} (hI : Inv P s) (x : Stats) : Inv P { s with stats := x } :=
   ⟨hI.lenT, hI.lenN, hI.sub, hI.nonempty, hI.fix, hI.ent⟩
 
 /-- C04 for the shipped `bound_consistency_algorithm`: the pass returns (never `.error .fuel`,
@@ -330,7 +330,7 @@ theorem C04_bcPass {P : Problem} (hP : ProbOk P) (hW : WFP P) (hS : ∀ p ∈ P.
     ∃ st s', bcPass P s = .ok (st, s') ∧
       s'.stats.filter - s.stats.filter < (width s.top.doms + 1) * (P.props.length + 1) := by
   have h := C04_any_scheduler pickProp_ok hP hW hS (bcFuel P s) none _
-    (Inv_stats hI { s.stats with bc := s.stats.bc + 1 }) (Nat.le_of_lt (bcFuel_gt P s))
+    (Inv_withStats hI { s.stats with bc := s.stats.bc + 1 }) (Nat.le_of_lt (bcFuel_gt P s))
   exact h
 
 theorem C04_bcPass_no_fuel_error {P : Problem} (hP : ProbOk P) (hW : WFP P) (hS : ∀ p ∈ P.props, Safe p.alg)
